@@ -312,48 +312,52 @@ Definition ex_cfg : cfg := mkcfg 100 400 (Some 2).
 Lemma ex_cfg_ok : cfg_ok ex_cfg.
 Proof. unfold cfg_ok, ex_cfg; cbn; lia. Qed.
 
+Definition holds_after (v : variant) (c : cfg) (es : list event) (p : state -> bool) : bool :=
+  match exec v c (init c) es with Some s => p s | None => false end.
+
+Definition enabled (v : variant) (c : cfg) (s : state) (e : event) : bool :=
+  match step v c s e with Some _ => true | None => false end.
+
 (* first_immediate: a reachable idle state (a window was opened and has expired) *)
 Example first_immediate_nonvacuous :
-  exists s, exec Fixed ex_cfg (init ex_cfg)
-              [LoopTop; Model.Add; TakeToken; HandleToken; LoopTop; Advance 100; TakeTimer;
-               TimerFire; LoopTop] = Some s /\
-    has_timer s = false /\ run s = R_select /\ tokens s = 0 /\ closed s = false /\
-    lock_free Fixed s = true.
-Proof. eexists; split; [vm_compute; reflexivity | repeat split]. Qed.
+  holds_after Fixed ex_cfg
+    [LoopTop; Model.Add; TakeToken; HandleToken; LoopTop; Advance 100; TakeTimer; TimerFire; LoopTop]
+    (fun s => negb (has_timer s) && rpc_eqb (run s) R_select && (tokens s =? 0) &&
+              negb (closed s) && lock_free Fixed s) = true.
+Proof. vm_compute. reflexivity. Qed.
 
-(* no_add_lost / extension_law / cap_fires: a window is open, two Adds pending, the second
-   token received: the cap (2) is reached *)
+(* no_add_lost / cap_fires: a window is open, two Adds pending, the second token received: the
+   cap (2) is reached and HandleToken is enabled *)
 Example cap_nonvacuous :
-  exists s, exec Original ex_cfg (init ex_cfg)
-              [LoopTop; Model.Add; TakeToken; HandleToken; LoopTop; Model.Add; TakeToken;
-               HandleToken; LoopTop; Model.Add; TakeToken] = Some s /\
-    closed s = false /\ 0 < pending s /\ has_timer s = true /\ cap ex_cfg = Some 2 /\
-    2 <= pending s /\ step Original ex_cfg s HandleToken <> None.
-Proof. eexists; split; [vm_compute; reflexivity | repeat split; try (vm_compute; congruence)]. Qed.
+  holds_after Original ex_cfg
+    [LoopTop; Model.Add; TakeToken; HandleToken; LoopTop; Model.Add; TakeToken; HandleToken;
+     LoopTop; Model.Add; TakeToken]
+    (fun s => negb (closed s) && (0 <? pending s) && has_timer s && (2 <=? pending s) &&
+              enabled Original ex_cfg s HandleToken) = true.
+Proof. vm_compute. reflexivity. Qed.
 
-(* extension_law: window open, cap not reached *)
+(* extension_law: window open, cap not reached, HandleToken enabled *)
 Example extension_nonvacuous :
-  exists s, exec Original ex_cfg (init ex_cfg)
-              [LoopTop; Model.Add; TakeToken; HandleToken; LoopTop; Model.Add; TakeToken] = Some s /\
-    has_timer s = true /\ cap_reached ex_cfg (pending s) = false /\
-    step Original ex_cfg s HandleToken <> None.
-Proof. eexists; split; [vm_compute; reflexivity | repeat split; vm_compute; congruence]. Qed.
+  holds_after Original ex_cfg
+    [LoopTop; Model.Add; TakeToken; HandleToken; LoopTop; Model.Add; TakeToken]
+    (fun s => has_timer s && negb (cap_reached ex_cfg (pending s)) &&
+              enabled Original ex_cfg s HandleToken) = true.
+Proof. vm_compute. reflexivity. Qed.
 
-(* burst_no_signal: cap unset, window open, a burst of three Adds handled, no expiry *)
+(* burst_no_signal: cap unset, window open; a burst of three Adds is handled, the clock moves
+   inside the window, no expiry: three Adds pending, still exactly one signal *)
 Example burst_nonvacuous :
-  exists s s', exec Original (mkcfg 100 400 None) (init (mkcfg 100 400 None))
-                 [LoopTop; Model.Add; TakeToken; HandleToken; LoopTop] = Some s /\
-    has_timer s = true /\
-    exec Original (mkcfg 100 400 None) s
-      [Model.Add; Model.Add; TakeToken; HandleToken; LoopTop; Model.Add; TakeToken; HandleToken;
-       LoopTop; Advance 50; TakeToken; HandleToken; LoopTop] = Some s' /\
-    pending s' = 3 /\ spawned s' = spawned s.
-Proof. do 2 eexists; split; [vm_compute; reflexivity | repeat split; vm_compute; reflexivity]. Qed.
+  holds_after Original (mkcfg 100 400 None)
+    [LoopTop; Model.Add; TakeToken; HandleToken; LoopTop;
+     Model.Add; Model.Add; TakeToken; HandleToken; LoopTop; Model.Add; TakeToken; HandleToken;
+     LoopTop; Advance 50; TakeToken; HandleToken; LoopTop]
+    (fun s => has_timer s && (pending s =? 3) && (spawned s =? 1)) = true.
+Proof. vm_compute. reflexivity. Qed.
 
 (* close_waits: a reachable state in which Close's wait ends *)
 Example close_waits_nonvacuous :
-  exists s, exec Original ex_cfg (init ex_cfg)
-              [LoopTop; Model.Add; TakeToken; HandleToken; LoopTop; Model.Add; CloseCall; RunExit;
-               TokenAbort; SignalAbort; CloseLock] = Some s /\
-    step Original ex_cfg s CloseReturn <> None.
-Proof. eexists; split; [vm_compute; reflexivity | vm_compute; congruence]. Qed.
+  holds_after Original ex_cfg
+    [LoopTop; Model.Add; TakeToken; HandleToken; LoopTop; Model.Add; CloseCall; RunExit;
+     TokenAbort; SignalAbort; CloseLock]
+    (fun s => enabled Original ex_cfg s CloseReturn) = true.
+Proof. vm_compute. reflexivity. Qed.
